@@ -41,9 +41,17 @@ JudgeRelay(e) ==
   /\ Report("VERDICT", "C19_Cleanup", e, e.handlers = 0)
   /\ PrintT(<<"STAT2", "C19_relay", 1, 1>>)
 
+\* the probed side: conformance with RespOutcome (not a C19 clause)
+JudgeResp(e) ==
+  LET o == RespOutcome(e.p) IN
+  /\ Report("DRIFT", "resp-acks", e, e.respAcks = o.acks /\ (o.acks = 1 => e.respSeqOk))
+  /\ Report("DRIFT", "resp-to", e, e.respTo = o.to)
+  /\ PrintT(<<"STAT2", "responder", 1, 1>>)
+
 TInit == l = 1
 TStep == /\ l <= Len(Trace)
-         /\ (IF Trace[l].kind = "relay" THEN JudgeRelay(Trace[l]) ELSE JudgeProbe(Trace[l]))
+         /\ (IF Trace[l].kind = "relay" THEN JudgeRelay(Trace[l])
+             ELSE IF Trace[l].kind = "resp" THEN JudgeResp(Trace[l]) ELSE JudgeProbe(Trace[l]))
          /\ l' = l + 1
 TDone == l = Len(Trace) + 1 /\ PrintT(<<"DONE", Len(Trace)>>) /\ l' = l + 1
 TSpec == TInit /\ [][TStep \/ TDone]_l
